@@ -80,7 +80,7 @@ PROPS["C09"] = dict(
               "SqlVerif.Props.C09.next_token_text"],
     corr=["tok"],
     unique_output={"tok": True},
-    oracle=[],
+    oracle=["C09"],
     level_text="Proved in Lean for every dialect row, both un-escape modes, arbitrary character predicates and every input, on a hand-written executable model of Tokenizer (State, tokenize_with_location, next_token branch by branch in source order, all literal scanners): the slices consumed by the tokens concatenate to exactly the input (nothing dropped, duplicated or reordered), every token consumes at least one character, the reported (line, col) of each token is 1 + the number of newlines / 1 + the number of characters after the last newline of the text before it, locations increase strictly, tokenizing from any token boundary yields the remaining tokens with the same slices (next_token never reads line/col), the loop never runs out of fuel, and for every token that determines its text (unquoted words, numbers, punctuation/operators, placeholders, custom operators, line and block comments, Tab, Char) the slice is exactly that text. All of it follows from one lemma proved for every branch of next_token (a token consumes a non-empty prefix of the remaining input). The model is tied to the code by the `tok` stream: full token vectors with locations and error values (message and location) of the real tokenize_with_location vs the compiled model on every corpus literal x rotating dialects x both modes and on a fragment soup (all operator spellings, quote/prefix/dollar/comment openers, numbers and exponents, every whitespace kind, identifiers with @ # $ _, non-ASCII and astral characters, backslash escapes: every fragment x 13 dialects, all ordered pairs adjacent and spaced, prefix x quote x body grids, dollar-quote and nested-comment grids, random concatenations); tokenize is a function, so a disagreement on a request is a violation of the tie.",
     level_note="Trusted: Lean kernel (axioms propext, Classical.choice, Quot.sound); the hand-written model (Model/Tokenizer.lean, Model/Scan.lean), validated by the differential only on the generated and corpus inputs; Rust's Unicode predicates, char::to_uppercase and the four char->bool dialect methods are parameters whose real values travel with each request; dialect_of! tests are modelled as tests on the dialect name (true for the 13 built-in dialects, not for wrapper dialects); Token.text (the text a token stands for) is a definition of the theorem file, not checked against Display. Not claimed: slice = text for quoted literals / delimited identifiers (C06/C20), Neq (<> or !=), Newline (\\n, \\r, \\r\\n), Space (any whitespace char), HexStringLiteral; no direct oracle on the real code yet (correspondence only).",
     technique="Lean 4 proof (generic tokenizer-loop theorems + per-branch suffix and text lemmas on an executable model) + differential tokenizer stream with locations and errors",
@@ -98,16 +98,20 @@ PROPS["C04"] = dict(
               "SqlVerif.Props.C04.shape_levels", "SqlVerif.Props.C04.unique_bracketing",
               "SqlVerif.Props.C04.climbSpec_wellShaped", "SqlVerif.Props.C04.parse_eq_climbSpec",
               "SqlVerif.Props.C04.nested_preserved", "SqlVerif.Props.C04.nested_closes",
-              "SqlVerif.Props.C04.levels_consistent", "SqlVerif.Props.C04.keyword_classes"],
-    corr=["prec", "chains"],
-    unique_output={"prec": False, "chains": False},
+              "SqlVerif.Props.C04.levels_consistent", "SqlVerif.Props.C04.keyword_classes",
+              "SqlVerif.Props.C04.setops_levels", "SqlVerif.Props.C04.setops_yield", "SqlVerif.Props.C04.setops_shape",
+              "SqlVerif.Props.C04.setops_unique_bracketing", "SqlVerif.Props.C04.setops_parse_unique",
+              "SqlVerif.Props.C04.setops_nested_preserved"],
+    corr=["prec", "chains", "setops"],
+    unique_output={"prec": False, "chains": False, "setops": False},
     oracle=[],
-    level_text="Proved in Lean on a hand-written executable model of the Pratt expression parser (parse_subexpr, get_next_precedence with the PostgreSQL/Snowflake overrides, parse_prefix on a fragment, parse_infix with MySQL DIV, NOT, unary sign, PostgreSQL prefix operators, IS-family, [NOT] IN list, [NOT] BETWEEN, LIKE-family with ESCAPE, AT TIME ZONE, ::type, ANY/ALL/SOME, parentheses, recursion counter), for EVERY precedence table and flag record (the 13 built-in rows are instances), every fuel, recursion depth, context precedence and token list: (yield) the consumed tokens are exactly the in-order yield of the tree; (shape) the tree is well shaped - at every binary/mixfix/postfix node nothing exposed on the right edge of the left operand binds looser than the node and nothing exposed on the left edge of the right operand binds looser-or-equal (left associativity), NOT / unary sign / PostgreSQL prefix operators parse their operand at UnaryNot / MulDivModOp / PlusMinus, BETWEEN bounds above Between, LIKE patterns above Like, IS DISTINCT FROM, AT TIME ZONE and casts at Is, AtTz, DoubleColon, and the loop stops only when the next token's precedence is <= the context; (unique_bracketing) two well-shaped trees over identifiers and binary operators with the same yield are equal, and (parse_eq_climbSpec) on operand (operator operand)* input the parser's tree is the tree of an independently defined left-to-right fold; (nested_preserved) a parenthesised group is parsed at level unknown whatever the context, appears as Nested and closes both edges. The model is tied to the code by an exhaustive differential of get_next_precedence (every dialect x token x look-ahead) and by all operator pairs (+ triples, prefixes, parentheses, truncations, nesting around the recursion limit, random chains) per dialect. Partial: uniqueness is proved for identifier/binary-operator chains only (general statement kept as FullStatement); set operations (UNION/EXCEPT/INTERSECT) are not covered by a theorem here.",
-    level_note="Trusted: Lean kernel (axioms propext, Classical.choice, Quot.sound); the hand-written model (Model/Tok.lean, Model/Expr.lean, Model/Pratt.lean), validated by the differential on the generated chains only; Gen/Dialects.lean and Gen/Keywords.lean as dumped from the running crate; COLLATE_PREC/BRACKET_PREC of postgresql.rs are constants of Cfg.ofRow (120/130), checked by the prec stream. Outside the fragment (functions, subqueries, tuples, CASE/CAST, subscripts, COLLATE, typed strings, lambdas, OPERATOR(...), trailing commas in IN lists) the model answers UNSUPPORTED and the line is skipped (quick tier: 0.6% of lines). A disagreement on a pure infix chain is a violation (unique_bracketing); elsewhere it is reported as a broken tie.",
+    level_text="Proved in Lean on a hand-written executable model of the Pratt expression parser (parse_subexpr, get_next_precedence with the PostgreSQL/Snowflake overrides, parse_prefix on a fragment, parse_infix with MySQL DIV, NOT, unary sign, PostgreSQL prefix operators, IS-family, [NOT] IN list, [NOT] BETWEEN, LIKE-family with ESCAPE, AT TIME ZONE, ::type, ANY/ALL/SOME, parentheses, recursion counter), for EVERY precedence table and flag record (the 13 built-in rows are instances), every fuel, recursion depth, context precedence and token list: (yield) the consumed tokens are exactly the in-order yield of the tree; (shape) the tree is well shaped - at every binary/mixfix/postfix node nothing exposed on the right edge of the left operand binds looser than the node and nothing exposed on the left edge of the right operand binds looser-or-equal (left associativity), NOT / unary sign / PostgreSQL prefix operators parse their operand at UnaryNot / MulDivModOp / PlusMinus, BETWEEN bounds above Between, LIKE patterns above Like, IS DISTINCT FROM, AT TIME ZONE and casts at Is, AtTz, DoubleColon, and the loop stops only when the next token's precedence is <= the context; (unique_bracketing) two well-shaped trees over identifiers and binary operators with the same yield are equal, and (parse_eq_climbSpec) on operand (operator operand)* input the parser's tree is the tree of an independently defined left-to-right fold; (nested_preserved) a parenthesised group is parsed at level unknown whatever the context, appears as Nested and closes both edges. The model is tied to the code by an exhaustive differential of get_next_precedence (every dialect x token x look-ahead) and by all operator pairs (+ triples, prefixes, parentheses, truncations, nesting around the recursion limit, random chains) per dialect. The same yield / shape / uniqueness (parenthesis-free chains) / parentheses theorems are proved for a second model of parse_query_body / parse_remaining_set_exprs (UNION = EXCEPT = 10 < INTERSECT = 20, all set quantifiers, parenthesised bodies, recursion counter), tied by the stream setops. Partial: uniqueness is proved for identifier/binary-operator chains and parenthesis-free set-operation chains only (general statement kept as FullStatement).",
+    level_note="Trusted: Lean kernel (axioms propext, Classical.choice, Quot.sound); the hand-written models (Model/Tok.lean, Model/Expr.lean, Model/Pratt.lean, Model/SetClimb.lean), validated by the differential on the generated chains only; Gen/Dialects.lean and Gen/Keywords.lean as dumped from the running crate; COLLATE_PREC/BRACKET_PREC of postgresql.rs are constants of Cfg.ofRow (120/130), checked by the prec stream. Outside the fragment (functions, subqueries, tuples, CASE/CAST, subscripts, COLLATE, typed strings, lambdas, OPERATOR(...), trailing commas in IN lists) the model answers UNSUPPORTED and the line is skipped (quick tier: 0.6% of lines). A disagreement on a pure infix chain is a violation (unique_bracketing); elsewhere it is reported as a broken tie.",
     technique="Lean 4 proof (simultaneous fuel induction over a mutual executable Pratt model; Cartesian-tree uniqueness; reference fold) + exhaustive precedence differential + pair/triple chain differential on the real parser",
     trusted_base=["Model/Pratt.lean mirrors src/parser/mod.rs parse_subexpr/parse_prefix/parse_infix/parse_not/parse_in/parse_between and src/dialect/{mod,postgresql,snowflake,mysql}.rs precedence code by hand",
                   "dialect_of! is modelled as a test on the built-in dialect's name; COLLATE_PREC=120 and BRACKET_PREC=130 are literals in Cfg.ofRow",
-                  "tree nodes of the model keep the tokens they consumed; the S-expression compared with the real AST forgets them"],
+                  "tree nodes of the model keep the tokens they consumed; the S-expression compared with the real AST forgets them",
+                  "Model/SetClimb.lean mirrors parse_query / parse_query_body / parse_remaining_set_exprs / parse_set_quantifier by hand; `SELECT n` is one abstract token (the driver groups the two real tokens)"],
     assumptions=["Gen/Dialects.lean and Gen/Keywords.lean are the tables of the crate as built from /repo's working tree",
                  "the input of the model is the non-whitespace token list the real tokenizer produced"],
 )
@@ -159,6 +163,110 @@ PROPS["C14"] = dict(
 )
 
 NOT_CLAIMED = {}
+
+PROPS["C11"] = dict(
+    lean=["SqlVerif.Props.C11"],
+    namespaces=["SqlVerif.Props.C11"],
+    required=["SqlVerif.Props.C11.script_concat", "SqlVerif.Props.C11.requires_separator",
+              "SqlVerif.Props.C11.end_keyword_drops_tail", "SqlVerif.Props.C11.parseSelect_local"],
+    corr=["stmts"],
+    unique_output={"stmts": False},
+    oracle=["C11"],
+    level_text="Proved in Lean for every token type and every statement parser that is local on the statements of the script (followed by EOF or `;` it consumes exactly the statement): the statements loop returns exactly [a1..an] for the script `;* s1 ;+ s2 ;+ ... sn ;*` (any separator layout, empty statements, leading/trailing `;`); a statement not followed by `;`/EOF/END is an error; the END-keyword break (a deviation: the tail after END is dropped) is proved as such and kept visible. The loop model is tied to parse_statements by an exhaustive differential (all token sequences up to length 6/7 over SELECT/number/`;`/END/`)`/whitespace). Locality of the real statement parsers is not a theorem: it is searched on the real code for every corpus statement kind x dialect x followers {SELECT 1, itself, COMMIT} x layouts.",
+    level_note="Trusted: Lean kernel; hand-written loop model (validated exhaustively on short sequences); locality of each real statement parser is a hypothesis, checked by the follower oracle on corpus texts only. COPY ... FROM STDIN is excluded as the property says.",
+    technique="Lean 4 loop theorem under a locality hypothesis + exhaustive loop differential + follower oracle over every corpus statement kind",
+    trusted_base=["Model/Stmts.lean mirrors parse_statements"],
+    assumptions=["statement parsers are local on the statements considered (hypothesis LocalOn)"],
+)
+
+PROPS["C16"] = dict(
+    lean=["SqlVerif.Props.C16"],
+    namespaces=["SqlVerif.Props.C16"],
+    required=["SqlVerif.Props.C16.balanced", "SqlVerif.Props.C16.preorder", "SqlVerif.Props.C16.postorder",
+              "SqlVerif.Props.C16.exactly_once", "SqlVerif.Props.C16.break_stops", "SqlVerif.Props.C16.no_break_complete",
+              "SqlVerif.Props.C16.visit_eq_visitmut", "SqlVerif.Props.C16.identity_mut",
+              "SqlVerif.Props.C16.node_kinds_hooked", "SqlVerif.Props.C16.relation_positions_hooked",
+              "SqlVerif.Props.C16.relation_positions_consistent", "SqlVerif.Props.C16.hooks_known"],
+    corr=["visit"],
+    unique_output={"visit": True},
+    oracle=["C16"],
+    level_text="Proved in Lean for every tree and every visitor (a visitor = the set of callback indices at which it returns Break): the traversal that derive(Visit, VisitMut) generates (type-level pre hook, fields in declaration order each wrapped in its field-level pre/post hook, type-level post hook; Option/Vec/Box transparent; ? on ControlFlow) delivers a well-nested callback sequence in which every post closes the pre of the same node; the pre callbacks are exactly the hooked nodes and hooked fields of the tree in pre-order, each exactly once (positions identified by path); Break at callback k delivers exactly the first k+1 callbacks of the complete walk; the mutating walk with an identity visitor delivers the same sequence and returns an equal tree. Which types and fields carry which hook is not modelled by hand: the AST schema (265 types, every visit(with=...) attribute, the manual impls) is re-extracted from the Rust sources with syn on every run and the kernel re-decides that Expr/Statement/Query/TableFactor carry their hooks and that the 16 relation positions of the specification table are hooked. The model of the derive is tied to the code by running the real Visit and VisitMut walks on every distinct parsed corpus statement and on AST-first generated statements (random documents of the schema turned into real values by the crate's Deserialize, every Statement variant in turn), each reflected into the model through a serde Serializer and cross-checked against the schema, with Break at none/first/second/middle/last (thorough: every) callback. Because the theorems pin the callback sequence uniquely, a disagreement is a violation at that input. Two (three) DML target positions of the property are not hooked by the code: known findings reported by the relation-coverage oracle.",
+    level_note="Trusted: Lean kernel; translator/schema.rs (attributes read syntactically, cfg evaluated for features std+serde+visitor); the hand-written model of derive/src/lib.rs and of the container impls (validated on corpus trees only, largest walk about 200 callbacks); reflection through derive(Serialize) shows fields in declaration order. The general mutating walk (callbacks that restructure the tree) is modelled with fuel but only its identity instance is tied to the code. The relation-position table is a hand-written spec (Props/C16.lean and, independently, pattern matching in harness c16.rs).",
+    technique="Lean 4 generic traversal theorems (all trees, all break points) + kernel-decided side conditions on the AST schema regenerated from source (syn) + real Visit/VisitMut callback trace differential + relation-coverage oracle",
+    trusted_base=["translator/schema.rs attribute and cfg extraction", "Model/Visit.lean mirrors derive/src/lib.rs and src/ast/visitor.rs:46-118 (hand-written)",
+                  "harness/reflect.rs: derive(Serialize) announces fields in declaration order"],
+    assumptions=["Gen/Schema.lean is the schema of the crate as built from /repo's working tree with features std, serde, visitor"],
+)
+
+PROPS["C17"] = dict(
+    lean=["SqlVerif.Props.C17"],
+    namespaces=["SqlVerif.Props.C17"],
+    required=["SqlVerif.Props.C17.de_ser", "SqlVerif.Props.C17.de_ser_named", "SqlVerif.Props.C17.ser_injective",
+              "SqlVerif.Props.C17.equal_trees_equal_documents", "SqlVerif.Props.C17.schema_serde_safe",
+              "SqlVerif.Props.C17.no_serde_attributes", "SqlVerif.Props.C17.statement_roundtrip",
+              "SqlVerif.Props.C17.statement_list_roundtrip", "SqlVerif.Props.C17.token_list_roundtrip"],
+    corr=["serde"],
+    unique_output={"serde": False},
+    oracle=["C17"],
+    level_text="Proved in Lean for every schema, type and value: in the data model that derive(Serialize, Deserialize) without serde attributes implements against serde_json (named structs as objects, newtype/tuple/unit structs, externally tagged enums with unit variants as strings, Option as null-or-value, Vec and tuples as arrays, Box transparent, strings, chars, bools, integers) decoding the document of a well-typed value returns the value, for every fuel above the size of the value, provided the schema satisfies a decidable condition (no serde attribute, no float or unclassified field type, no Option around a type that can serialise to null such as Option<Option<_>> / Option<()> / Option<UnitStruct>, distinct field names per struct/variant and distinct variant names per enum); corollary: different values have different documents. The condition is re-decided by the kernel on the schema of all 265 AST/token types (including the 768-variant Keyword enum) re-extracted from the Rust sources with syn on every run. The model's serialiser is tied to the derived Serialize impls by comparing, for every distinct parsed corpus statement, every AST-first generated statement (random documents of the schema through the crate's Deserialize, every Statement variant in turn) and every distinct token vector, the model's document of the reflected value with serde_json::to_value of the real value; the derived Deserialize impls are exercised directly: from_value(to_value(x)) == x and from_str(to_string(x)) == x on every parsed corpus statement list x 13 dialects and every token vector.",
+    level_note="Trusted: Lean kernel; translator/schema.rs; serde/serde_json themselves (their behaviour IS the modelled data model; validated on the serialising side by the stream); the model's decoder `de` is a reference decoder for the data model, the real Deserialize impls are not compared with it case by case but only through the real round trip (oracle). Values are those reachable by parsing: the theorem covers all well-typed values, the tie covers corpus values. f32/f64 and 128-bit integers are outside the model (none occur today; their appearance breaks the side condition).",
+    technique="Lean 4 generic serde/JSON round-trip theorem (all schemas satisfying a decidable condition) + kernel-decided condition on the schema regenerated from source (syn) + model-vs-serde_json document differential + real round-trip oracle",
+    trusted_base=["translator/schema.rs", "Model/Serde.lean mirrors serde_derive's externally tagged representation and serde_json's Value mapping (hand-written)",
+                  "serde, serde_json crates"],
+    assumptions=["Gen/Schema.lean is the schema of the crate as built from /repo's working tree with features std, serde, visitor",
+                 "every value of an AST type is a well-typed value of the schema (no float/128-bit payloads: decided)"],
+)
+
+ESCAPE_TB = ["Model/Escape.lean mirrors EscapeQuotedString / EscapeEscapedStringLiteral / EscapeUnicodeStringLiteral, Display for Value (string kinds), DollarQuotedString, Ident and Word by hand (tied by stream lits, print half)",
+             "Model/Scan.lean and Model/Tokenizer.lean mirror src/tokenizer.rs by hand (tied by streams tok and lits)",
+             "Unicode predicates, to_uppercase and dialect char predicates are model parameters (real values sent per request)"]
+
+PROPS["C06"] = dict(
+    lean=["SqlVerif.Props.C06"],
+    namespaces=["SqlVerif.Props.C06"],
+    required=["SqlVerif.Props.C06.escaped_roundtrip", "SqlVerif.Props.C06.escaped_roundtrip_token",
+              "SqlVerif.Props.C06.hex4_roundtrip", "SqlVerif.Props.C06.hex6_roundtrip",
+              "SqlVerif.Props.C06.unicode_roundtrip", "SqlVerif.Props.C06.unicode_roundtrip_token",
+              "SqlVerif.Props.C06.quoted_roundtrip_partial", "SqlVerif.Props.C06.single_quoted_token_partial",
+              "SqlVerif.Props.C06.doubled_quote_collapses", "SqlVerif.Props.C06.backslash_quote_unbalanced",
+              "SqlVerif.Props.C06.backslash_dialect_reinterprets", "SqlVerif.Props.C06.leading_quote_opens_triple",
+              "SqlVerif.Props.C06.verbatim_single_iff", "SqlVerif.Props.C06.verbatim_triple_iff",
+              "SqlVerif.Props.C06.verbatim_kinds_partial", "SqlVerif.Props.C06.national_token_iff",
+              "SqlVerif.Props.C06.national_quote_breaks", "SqlVerif.Props.C06.national_backslash_breaks",
+              "SqlVerif.Props.C06.dollar_roundtrip_partial", "SqlVerif.Props.C06.dollar_trailing_breaks",
+              "SqlVerif.Props.C06.dollar_tag_inside_breaks", "SqlVerif.Props.C06.dollar_partial_tag_breaks",
+              "SqlVerif.Props.C06.ident_roundtrip_partial", "SqlVerif.Props.C06.ident_doubled_quote_collapses",
+              "SqlVerif.Props.C06.bracket_close_breaks", "SqlVerif.Props.C06.fullStatement_false"],
+    corr=["lits"],
+    unique_output={"lits": True},
+    oracle=["C06"],
+    level_text="Proved in Lean, for ALL payloads (lists of code points) and all continuations that do not start with the closing quote, on hand-written executable models of the four escape printers of value.rs and of Display for Value / DollarQuotedString / Ident against the literal scanners of the tokenizer model: (1) E'..' : scanning the printed text gives the payload back, with no condition on the payload (a literal NUL is copied; the printer never emits an escape denoting NUL), and through next_token in EVERY dialect row and both un-escape modes; (2) U&'..' : the same for every payload whose non-ASCII code points are scalar values (every Rust char), with hex4/hex6 round trips over all values, through next_token in every dialect with supports_unicode_string_literal; (3) partial: the quote-doubling printer ('..', \"..\", quoted identifiers) gives the payload back under the decidable predicate CleanQ (no two adjacent quotes, no backslash directly before a quote, no backslash at all in a backslash-escape dialect), through next_token for '..' in every dialect (in triple-quote dialects only if the payload does not start with a quote); the kinds printed verbatim come back IFF the payload has no quote (N''/X'': and no backslash, in every dialect, proved as an iff through next_token; triple-quoted: no run of three quotes, no trailing quote); dollar-quoted and [..] / \"..\" / backquote identifiers under explicit predicates. Each way the full property fails on the current code has a kernel-checked witness (payload '' collapses, \\' unbalanced, backslash re-interpreted, leading quote opens a triple-quoted string, N'a'b', N'a\\nb', trailing quote in triple-quoted, $ at the end / tag inside / partial tag match in dollar quoting, \"\" identifier, ] in a bracket identifier); FullStatement is proved FALSE. The models are tied to the code by stream lits: for every payload of G-payload (all strings of length <= 2, thorough <= 3, over 19 characters incl. all quote characters, backslash, $, brackets, LF, CR, NUL, NBSP, non-ASCII and astral, plus quote/backslash/dollar patterns and random longer strings) x 32 literal/identifier forms: real to_string() vs model printer, and real Tokenizer vs model tokenizer on the printed text under 5 (thorough: 13) dialects x both modes. Direct oracle on the real code: tokens_d(print(k(p))) == [k(p)] and parse_expr gives the node back, for every dialect that lexes the trivial instance.",
+    level_note="Trusted: Lean kernel (axioms propext, Classical.choice, Quot.sound); the hand-written printer and scanner models (validated by the differential on the generated payloads only); dialect_of! modelled as a test on the built-in dialect's name. Partial: no theorem at next_token level for \"..\" strings, byte/raw/triple kinds, dollar quoting and identifiers (dispatch on dialect and delimiter sets; decided by the oracle); the converse (necessity) of CleanQ / cleanDollar / cleanTag is shown only by witnesses. The full property is FALSE on the current tree; every failing (kind, payload feature, dialect class) found by the oracle is a known finding, anything else is a violation. {:06X} is modelled with exactly six digits (exact for every char; beyond 2^24 Rust would print more).",
+    technique="Lean 4 proofs by induction on the payload against structurally recursive scanner models (all payloads; iff for verbatim kinds) + kernel-decided negation witnesses + print/tokenize differential on an exhaustive short-payload set + direct round-trip oracle on the real code",
+    trusted_base=ESCAPE_TB,
+    assumptions=["Gen/Dialects.lean and Gen/Keywords.lean are the tables of the crate as built from /repo's working tree",
+                 "payload characters are Rust chars (scalar values); the continuation after a literal does not start with its closing quote"],
+)
+
+PROPS["C20"] = dict(
+    lean=["SqlVerif.Props.C20"],
+    namespaces=["SqlVerif.Props.C20"],
+    required=["SqlVerif.Props.C20.raw_body_exact", "SqlVerif.Props.C20.raw_body_exact_quote",
+              "SqlVerif.Props.C20.raw_body_exact_prefixed", "SqlVerif.Props.C20.raw_body_exact_single",
+              "SqlVerif.Props.C20.raw_body_exact_ident", "SqlVerif.Props.C20.print_raw_identity",
+              "SqlVerif.Props.C20.print_raw_identity_ident", "SqlVerif.Props.C20.print_raw_source",
+              "SqlVerif.Props.C20.modes_same_shape", "SqlVerif.Props.C20.modes_same_shape'",
+              "SqlVerif.Props.C20.modes_same_acceptance", "SqlVerif.Props.C20.escaped_ignores_raw_mode",
+              "SqlVerif.Props.C20.escaped_ignores_raw_mode_general", "SqlVerif.Props.C20.fullStatement_false"],
+    corr=["lits", "tok"],
+    unique_output={"lits": True, "tok": True},
+    oracle=["C20"],
+    level_text="Proved in Lean on the tokenizer and printer models, for every dialect row, arbitrary character predicates and every input: (raw_body_exact) with un-escaping off, the payload returned by tokenize_quoted_string (single and triple form), tokenize_single_or_triple_quoted_string and parse_quoted_ident is exactly the source text between the delimiters (opening ++ payload ++ closing ++ rest = input), and the literal branches of next_token ('..', \"..\", triple-quoted, B/R/N/X prefixed, delimited identifiers) build their token from that slice; (print_raw_identity) EscapeQuotedString is the identity on EVERY payload in the image of the raw-mode scanner, with and without backslash escapes (induction along the scanner's run: quotes occur only as doubled pairs or behind a backslash, exactly the two cases the printer's look-ahead leaves alone), hence printing a raw-mode '..'/\"..\" literal or quoted identifier reproduces its source slice byte for byte, and the verbatim kinds do so by definition; (modes_same_shape) tokenize with and without un-escaping returns the same located error, or token lists of equal length with equal locations and tokens equal except for the payloads of the kinds read by tokenize_quoted_string / parse_quoted_ident (E'..', U&'..', dollar-quoted strings, numbers and words are equal in full), proved per branch of next_token and lifted through the loop. Negation with kernel-checked witnesses: E'..' and U&'..' un-escape whatever the option says (the two branches never read it), so the token-level FullStatement is proved FALSE. Tie: streams tok and lits compare the real tokenizer with the model in both modes, lits also the printers. Partial: the tree-level claims (printing the parsed tree reproduces the bodies; trees of the two modes differ only in payloads) are decided by the oracle on the real code (corpus + generated literals with doubled quotes, backslashes and escapes in every literal form x 13 dialects).",
+    level_note="Trusted: Lean kernel (axioms propext, Classical.choice, Quot.sound); the hand-written tokenizer and printer models (validated by the differentials only on generated and corpus inputs). Not a theorem: anything about the parser (it inspects payload text at a few sites such as parse_literal_char and introducers) -- oracle only. E'..'/U&'..' ignoring the option is a known finding of the current tree.",
+    technique="Lean 4 proofs (functional induction along the scanner runs; per-branch simulation of next_token in both modes lifted through the tokenizer loop) + kernel-decided negation witnesses + tokenizer/printer differentials in both modes + raw-body / print / tree-shape oracles on the real code",
+    trusted_base=ESCAPE_TB,
+    assumptions=["Gen/Dialects.lean and Gen/Keywords.lean are the tables of the crate as built from /repo's working tree"],
+)
 
 # entries still under construction by a sub-agent are not claimed in MANIFEST.json yet
 for _hold in ["C04"]:
